@@ -249,10 +249,16 @@ def _fit_state(shard):
     ln, nn = shard["ln"], shard["nn"]
     cfg = A.config(ln, nn, arms=ARMS3, seed=shard["seed"], n_jobs=3)
     cf = ops.is_context_free(cfg)
+    k = 1
+    if ln == "tsb":
+        # arm-dependent binarizer on rewards 0 / 2: a conversion that pairs a reward with another row's decision shows
+        cfg["lp"] = ["ThompsonSampling", {"binarizer": "bin_arm_threshold"}]
+        k = 2
     mab = ops.build(cfg)
     with sched.model():
-        ops.apply(mab, data.batch("fit", ARMS3, [0, 1, 2, 0, 1, 0], data.R6, data.X6, cf))
-    op = data.batch(shard["call"], ARMS3, [0, 1, 2, 1, 2], [1, 0, 1, 1, 0], [[1, 1], [0, 1], [2, 0], [0, 0], [1, 0]], cf)
+        ops.apply(mab, data.batch("fit", ARMS3, [0, 1, 2, 0, 1, 0], [k * r for r in data.R6], data.X6, cf))
+    op = data.batch(shard["call"], ARMS3, [0, 1, 2, 1, 2], [k * r for r in [1, 0, 1, 1, 0]],
+                    [[1, 1], [0, 1], [2, 0], [0, 0], [1, 0]], cf)
     return cfg, mab, op, cf
 
 
